@@ -127,7 +127,11 @@ def audit(kind, path):
 
 
 def main():
+    import guard
     kind = sys.argv[1]
+    for d in sys.argv[2:]:
+        guard.allow(d)
+    guard.install(tmp_in=os.path.dirname(os.path.abspath(sys.argv[2])) if len(sys.argv) > 2 else None)
     for d in sys.argv[2:]:
         try:
             r = audit(kind, d)
@@ -135,6 +139,11 @@ def main():
             r = {"opens": False, "error": "audit crashed: " + type(e).__name__ + ": " + str(e)[:200]}
         print(json.dumps(r, sort_keys=True))
     sys.stdout.flush()
+    try:
+        import guard
+        guard.cleanup()
+    except Exception:
+        pass
     os._exit(0)
 
 
